@@ -827,7 +827,7 @@ theorem compactFrames_skel (m : Mem) : SkelLex m.compactFrames m :=
   ⟨view_compact m.frames 0, rfl, [], by simp [OnlyLex], by simp [Mem.compactFrames]⟩
 
 /-- after `commit()` nothing but (no) records is pending -/
-theorem commit_quiet (m : Mem) (ft : Nat) (hi : Inv m) : Quiet (m.commit ft).1 := by
+theorem commit_result_quiet (m : Mem) (ft : Nat) (hi : Inv m) : Quiet (m.commit ft).1 := by
   unfold Mem.commit
   split
   · rename_i h
@@ -844,7 +844,7 @@ theorem commit_quiet (m : Mem) (ft : Nat) (hi : Inv m) : Quiet (m.commit ft).1 :
 theorem vacuum_spec (m : Mem) (a b : Nat) (hi : Inv m) :
     Quiet (m.vacuum a b).1 ∧ abs (m.vacuum a b).1 = abs m := by
   unfold Mem.vacuum
-  have hcq := commit_quiet m a hi
+  have hcq := commit_result_quiet m a hi
   have hca := commit_abs m a hi
   split
   · have hs := SkelLex.trans (rebuildIndexes_skel (m.commit a).1.compactFrames [] [] b) (compactFrames_skel (m.commit a).1)
@@ -902,11 +902,12 @@ theorem doctor_sim (m : Mem) (vac rt rl rv : Bool) (a b c d : Nat) (hi : Inv m) 
     · obtain ⟨q, e⟩ := doctorRebuild_quiet _ rv c h1.1
       exact ⟨q, e.trans h1.2⟩
     · exact h1
-  have hd2 := dropHandle_inv _ c h2.1.inv
+  obtain ⟨hr1, hr2⟩ := resetWal_quiet _ h2.1
+  have hd2 := dropHandle_inv _ c hr1.inv
   obtain ⟨hq3, hf3⟩ := openFrom_spec _ d hd2.ok
   refine ⟨hq3, ?_⟩
-  show abs ((((m.doctorStage1 vac a b c).doctorStage2 (rt || rl || rv) rv c).dropHandle c).openFrom d) = _
-  rw [openFrom_abs _ d hd2, dropHandle_abs _ c h2.1.inv, h2.2]
+  show abs (((((m.doctorStage1 vac a b c).doctorStage2 (rt || rl || rv) rv c).resetWal).dropHandle c).openFrom d) = _
+  rw [openFrom_abs _ d hd2, dropHandle_abs _ c hr1.inv, hr2, h2.2]
 
 /-! ## G. The simulation theorem -/
 
